@@ -11,6 +11,66 @@ EMPTY = "emit_core::empty::Empty"
 OVERLAYS = ('K2b',)
 
 
+def every_runtime_whole_rule(chk, P, key):
+    def every_runtime_whole():
+        """Every place in emit::setup that assembles a Runtime from Runtime::new() gives it all five components, each from
+        the like-named field of the Setup (try_init_slot, try_init_internal, init_runtime, ...)."""
+        n = 0
+        sites = []
+        for b in P.by_crate["emit"]:
+            if not b.file.endswith("src/setup.rs") or b.is_closure:
+                continue
+            for c in b.calls(normal_only=True):
+                if c.callee.get("name") == "build" and "Runtime" in (c.callee.get("path") or c.callee.get("full") or "") and len(c.args) == 5:
+                    n += 1
+                    flds = [mir.o_field_path(b.origin(a))[1] for a in c.args]
+                    if flds != [["emitter"], ["filter"], ["ctxt"], ["clock"], ["rng"]]:
+                        return False, "%s builds a runtime from %s, not (emitter, filter, ctxt, clock, rng) of the setup" % (b.key, flds), [], c.loc
+                    sites.append(c.loc)
+            withs = [c for c in b.calls(normal_only=True) if (c.callee.get("name") or "").startswith("with_") and "Runtime" in (c.callee.get("path") or c.callee.get("full") or "")]
+            if not withs:
+                continue
+            recv_bbs = set()
+            for c in withs:
+                r = b.origin(c.args[0])
+                if r[0] == "call":
+                    recv_bbs.add(r[1].bb)
+            tails = [c for c in withs if c.bb not in recv_bbs]
+            for tcall in tails:
+                seen = []
+                x = ("call", tcall)
+                d = 0
+                head = None
+                while x[0] == "call" and d < 10:
+                    nm = x[1].callee.get("name")
+                    if nm and nm.startswith("with_"):
+                        seen.append((nm[5:], mir.o_field_path(b.origin(x[1].args[1]))[1]))
+                    elif nm == "new":
+                        head = x[1]
+                        break
+                    if not x[1].args:
+                        break
+                    x = b.origin(x[1].args[0])
+                    d += 1
+                if head is None:
+                    continue   # a builder step on an existing runtime (map_emitter etc.), not an assembly from scratch
+                n += 1
+                want = {"emitter", "filter", "ctxt", "clock", "rng"}
+                got = {k for k, f in seen}
+                if got != want:
+                    return False, ("%s assembles a runtime from Runtime::new() with only %s: the missing component(s) %s silently stay "
+                                   "Empty, so the slot becomes enabled with a mix of the configured components and defaults"
+                                   % (b.key, sorted(got), sorted(want - got))), [], tcall.loc
+                bad = [(k, f) for k, f in seen if f != [k]]
+                if bad:
+                    return False, "%s gives with_%s the value %s, not self.%s" % (b.key, bad[0][0], bad[0][1], bad[0][0]), [], tcall.loc
+                sites.append(tcall.loc)
+        if n < 3:
+            raise mir.AnchorMissing("runtime assemblies in emit::setup (found %d)" % n)
+        return True, "", sites
+    chk.ob(key, "every runtime assembled by Setup carries all five configured components together", every_runtime_whole)
+
+
 def run(chk):
     P = mir.Program("K1")
     chk.use_program(P)
@@ -244,63 +304,7 @@ def run(chk):
         return True, "", [i.loc, g.loc]
     chk.ob("C20.R4:try_init_slot", "the runtime is built from the setup's own five components; None when init loses; the handle reads the slot after initialisation", try_init_slot)
 
-    def every_runtime_whole():
-        """Every place in emit::setup that assembles a Runtime from Runtime::new() gives it all five components, each from
-        the like-named field of the Setup (try_init_slot, try_init_internal, init_runtime, ...)."""
-        n = 0
-        sites = []
-        for b in P.by_crate["emit"]:
-            if not b.file.endswith("src/setup.rs") or b.is_closure:
-                continue
-            for c in b.calls(normal_only=True):
-                if c.callee.get("name") == "build" and "Runtime" in (c.callee.get("path") or c.callee.get("full") or "") and len(c.args) == 5:
-                    n += 1
-                    flds = [mir.o_field_path(b.origin(a))[1] for a in c.args]
-                    if flds != [["emitter"], ["filter"], ["ctxt"], ["clock"], ["rng"]]:
-                        return False, "%s builds a runtime from %s, not (emitter, filter, ctxt, clock, rng) of the setup" % (b.key, flds), [], c.loc
-                    sites.append(c.loc)
-            withs = [c for c in b.calls(normal_only=True) if (c.callee.get("name") or "").startswith("with_") and "Runtime" in (c.callee.get("path") or c.callee.get("full") or "")]
-            if not withs:
-                continue
-            recv_bbs = set()
-            for c in withs:
-                r = b.origin(c.args[0])
-                if r[0] == "call":
-                    recv_bbs.add(r[1].bb)
-            tails = [c for c in withs if c.bb not in recv_bbs]
-            for tcall in tails:
-                seen = []
-                x = ("call", tcall)
-                d = 0
-                head = None
-                while x[0] == "call" and d < 10:
-                    nm = x[1].callee.get("name")
-                    if nm and nm.startswith("with_"):
-                        seen.append((nm[5:], mir.o_field_path(b.origin(x[1].args[1]))[1]))
-                    elif nm == "new":
-                        head = x[1]
-                        break
-                    if not x[1].args:
-                        break
-                    x = b.origin(x[1].args[0])
-                    d += 1
-                if head is None:
-                    continue   # a builder step on an existing runtime (map_emitter etc.), not an assembly from scratch
-                n += 1
-                want = {"emitter", "filter", "ctxt", "clock", "rng"}
-                got = {k for k, f in seen}
-                if got != want:
-                    return False, ("%s assembles a runtime from Runtime::new() with only %s: the missing component(s) %s silently stay "
-                                   "Empty, so the slot becomes enabled with a mix of the configured components and defaults"
-                                   % (b.key, sorted(got), sorted(want - got))), [], tcall.loc
-                bad = [(k, f) for k, f in seen if f != [k]]
-                if bad:
-                    return False, "%s gives with_%s the value %s, not self.%s" % (b.key, bad[0][0], bad[0][1], bad[0][0]), [], tcall.loc
-                sites.append(tcall.loc)
-        if n < 3:
-            raise mir.AnchorMissing("runtime assemblies in emit::setup (found %d)" % n)
-        return True, "", sites
-    chk.ob("C20.R4:every-runtime-whole", "every runtime assembled by Setup carries all five configured components together", every_runtime_whole)
+    every_runtime_whole_rule(chk, P, "C20.R4:every-runtime-whole")
 
     def top_level():
         """emit::{emitter, filter, ctxt, clock, rng, blocking_flush}: straight-line reads of runtime::shared(), so before
